@@ -6,6 +6,7 @@ package vf
 
 import (
 	"fmt"
+	"os"
 	"sort"
 
 	"github.com/johnkerl/miller/v6/pkg/verifrt"
@@ -70,6 +71,7 @@ func Explore(spec ExploreSpec) *ExploreResult {
 	}
 	res := &ExploreResult{Outcomes: map[string]int{}, Witness: map[string][]int{}, Faults: map[string]int{}, FaultAt: map[string][]int{}, Exhaustive: true, BoundDone: -1}
 	expanded := map[uint64]bool{}
+	noCache := os.Getenv("VERIF_NOCACHE") != "" // debugging aid: plain DFS without state caching
 	// a pending alternative shares its parent execution's choice list: prefix = base[:n] + [alt]
 	type pending struct {
 		base []int
@@ -98,8 +100,8 @@ func Explore(spec ExploreSpec) *ExploreResult {
 		r := verifrt.Run(func() {
 			outcome = spec.Body()
 			completed = true
-		}, verifrt.RunConfig{Prefix: prefix, MaxSteps: spec.MaxSteps, Trace: spec.Trace, StallSecs: spec.StallSecs,
-			Seen: func(step int, key uint64, nopts int) bool { return expanded[key] }})
+		}, verifrt.RunConfig{Prefix: prefix, MaxSteps: spec.MaxSteps, Trace: spec.Trace, StallSecs: stallSecs(spec.StallSecs),
+			Seen: func(step int, key uint64, nopts int) bool { return !noCache && expanded[key] }})
 		res.Execs++
 		res.Transitions += int64(r.Steps)
 		if r.Steps > res.MaxSteps {
@@ -115,7 +117,7 @@ func Explore(spec ExploreSpec) *ExploreResult {
 			return res // the process must be abandoned
 		}
 		for i := len(prefix); i < len(r.Choices); i++ {
-			if expanded[r.Keys[i]] {
+			if expanded[r.Keys[i]] && !noCache {
 				continue
 			}
 			expanded[r.Keys[i]] = true
@@ -188,4 +190,125 @@ func ReplaySchedule(spec ExploreSpec, sched []int) (string, verifrt.Result) {
 		outcome = spec.After(outcome, &r)
 	}
 	return outcome, r
+}
+
+func stallSecs(n int) int {
+	if n == 0 {
+		n = 60
+	}
+	return n * StallScale()
+}
+
+// RandomWalks runs n executions with uniformly random choices (a diagnostic: it decides nothing, it is used to
+// cross-examine the exhaustive search) and returns the outcome histogram.
+func RandomWalks(spec ExploreSpec, n int, seed int64) map[string]int {
+	out := map[string]int{}
+	x := uint64(seed)*2862933555777941757 + 3037000493
+	for k := 0; k < n; k++ {
+		if spec.Before != nil {
+			spec.Before()
+		}
+		var outcome string
+		done := false
+		r := verifrt.Run(func() { outcome = spec.Body(); done = true }, verifrt.RunConfig{MaxSteps: spec.MaxSteps, StallSecs: stallSecs(spec.StallSecs),
+			Chooser: func(step, nopts int) int {
+				x ^= x << 13
+				x ^= x >> 7
+				x ^= x << 17
+				return int(x % uint64(nopts))
+			}})
+		switch {
+		case r.Deadlock:
+			outcome = "DEADLOCK"
+		case r.Horizon:
+			outcome = "HORIZON"
+		case r.Fault != nil:
+			outcome = "FAULT"
+		case !done:
+			outcome = "INCOMPLETE"
+		}
+		if spec.After != nil && done {
+			outcome = spec.After(outcome, &r)
+		}
+		out[outcome]++
+	}
+	return out
+}
+
+// AuditCaching cross-examines the state caching: it runs the cached DFS recording, for every expanded state key, the
+// set of options seen at its first expansion, then runs n random walks and reports every branching point whose state
+// key was expanded with a DIFFERENT option set (equal keys must imply equal futures, in particular equal options).
+func AuditCaching(spec ExploreSpec, n int) []string {
+	first := map[uint64]string{}
+	expanded := map[uint64]bool{}
+	type pending struct {
+		base []int
+		n    int
+		alt  int
+	}
+	stack := []pending{{nil, 0, -1}}
+	execs := 0
+	for len(stack) > 0 && execs < 400000 {
+		pd := stack[len(stack)-1]
+		stack = stack[:len(stack)-1]
+		var prefix []int
+		if pd.alt >= 0 {
+			prefix = make([]int, pd.n+1)
+			copy(prefix, pd.base[:pd.n])
+			prefix[pd.n] = pd.alt
+		}
+		if spec.Before != nil {
+			spec.Before()
+		}
+		r := verifrt.Run(func() { spec.Body() }, verifrt.RunConfig{Prefix: prefix, MaxSteps: spec.MaxSteps, Audit: true,
+			Seen: func(step int, key uint64, nopts int) bool { return expanded[key] }})
+		execs++
+		for i := len(prefix); i < len(r.Choices); i++ {
+			if expanded[r.Keys[i]] {
+				continue
+			}
+			expanded[r.Keys[i]] = true
+			ds := append([]string{}, r.OptDescs[i]...)
+			sort.Strings(ds)
+			first[r.Keys[i]] = fmt.Sprint(ds)
+			for alt := r.NOpts[i] - 1; alt >= 1; alt-- {
+				stack = append(stack, pending{r.Choices, i, alt})
+			}
+		}
+	}
+	var findings []string
+	x := uint64(88172645463325252)
+	for k := 0; k < n && len(findings) < 5; k++ {
+		if spec.Before != nil {
+			spec.Before()
+		}
+		r := verifrt.Run(func() { spec.Body() }, verifrt.RunConfig{MaxSteps: spec.MaxSteps, Audit: true,
+			Chooser: func(step, nopts int) int {
+				x ^= x << 13
+				x ^= x >> 7
+				x ^= x << 17
+				return int(x % uint64(nopts))
+			}})
+		for i := range r.Choices {
+			ds := append([]string{}, r.OptDescs[i]...)
+			sort.Strings(ds)
+			f, ok := first[r.Keys[i]]
+			if !ok {
+				findings = append(findings, fmt.Sprintf("walk %d point %d: state %x was never expanded by the DFS (options %v); previous step options %v", k, i, r.Keys[i], ds, prev(r.OptDescs, i)))
+				break
+			}
+			if f != fmt.Sprint(ds) {
+				findings = append(findings, fmt.Sprintf("walk %d point %d: state %x has options %v here but %s at its first expansion", k, i, r.Keys[i], ds, f))
+				break
+			}
+		}
+	}
+	return append([]string{fmt.Sprintf("dfs executions %d, expanded states %d", execs, len(expanded))}, findings...)
+}
+
+func prev(d [][]string, i int) []string {
+	if i == 0 {
+		return nil
+	}
+	return d[i-1]
 }
